@@ -1,6 +1,6 @@
 (** Property C17 — the theorems the check counts as obligations.  Nothing but
     statements closed by [exact] and [Print Assumptions]. *)
-From HS Require Import Base.Prelude C17.Model C17.PBProofs C17.PBConv.
+From HS Require Import Base.Prelude C17.Model C17.PBProofs C17.PBConv C17.Chain C17.ChainProofs C17.ChainConv.
 Local Open Scope Z_scope.
 
 (** Primary-backup, every schedule (any message reordering, any interleaving of
@@ -22,3 +22,39 @@ Print Assumptions c17_pb_ack_applied.
 Theorem c17_pb_convergence_refuted : ~ pb_convergence_statement.
 Proof. exact pb_convergence_refuted. Qed.
 Print Assumptions c17_pb_convergence_refuted.
+
+(** Chain replication (build_chain, >= 2 nodes, with or without CRAQ), every
+    schedule: an acknowledged write has been applied at every node of the chain. *)
+Theorem c17_chain_ack_applied : forall c, (2 <= cc_n c)%nat -> forall sched s,
+  crun c cinit sched = Some s ->
+  forall w sq, In (w, sq) (k_replies s) ->
+  exists k v, In (w, sq, k, v) (k_accepted s) /\
+    forall i, 0 <= i < cn c -> In (sq, k, v) (n_log (k_node s i)).
+Proof. exact chain_ack_applied. Qed.
+Print Assumptions c17_chain_ack_applied.
+
+(** A read served by the tail (directly, or forwarded by a CRAQ node) returns a
+    value that has been applied at the tail and at every other node. *)
+Theorem c17_chain_tail_read_committed : forall c, (2 <= cc_n c)%nat -> forall sched s,
+  crun c cinit sched = Some s ->
+  forall rid k v, In (rid, tail_of c, k, Some v) (k_reads s) ->
+  exists sq, forall i, 0 <= i < cn c -> In (sq, k, v) (n_log (k_node s i)).
+Proof. exact chain_tail_read_committed. Qed.
+Print Assumptions c17_chain_tail_read_committed.
+
+(** Chain convergence under reordering: REFUTED (known finding C17-chain-reorder-diverge). *)
+Theorem c17_chain_convergence_refuted : ~ chain_convergence_statement.
+Proof. exact chain_convergence_refuted. Qed.
+Print Assumptions c17_chain_convergence_refuted.
+
+(** CRAQ reads at clean non-tail nodes: REFUTED (known finding C17-craq-dirty-set). *)
+Theorem c17_craq_clean_read_refuted : ~ craq_read_statement.
+Proof. exact craq_clean_read_refuted. Qed.
+Print Assumptions c17_craq_clean_read_refuted.
+
+(** second, independent witness of the same refuted statement (known finding
+    C17-craq-check-then-read): dirty check before store.get. *)
+Theorem c17_craq_check_then_read_witness :
+  craq_violates qwit2_cfg qwit2_sched 1 = true /\ ~ craq_read_statement.
+Proof. exact (conj craq_check_then_read_witness (craq_violates_refutes _ _ _ craq_check_then_read_witness)). Qed.
+Print Assumptions c17_craq_check_then_read_witness.
